@@ -100,6 +100,11 @@ func init() {
 		runHistories(r, profile{Hostile: 30, Faults: 6, Attack: 3, Logout: 2, Ticks: 40, Histories: scale(r, 60, 1500), Length: 60}, histRule)
 	}
 	checks["C13"] = func(r *Run) {
+		overlappingLogins(r, "C13")
+		if r.unknownViolations() > 0 {
+			r.Finish("logins of several browsers that overlap in time")
+			return
+		}
 		runHistories(r, profile{Hostile: 5, Faults: 2, Attack: 6, Logout: 8, Ticks: 8, OddConfig: true, Histories: scale(r, 80, 2000), Length: 30}, histRule)
 	}
 	checks["C14"] = func(r *Run) {
@@ -162,6 +167,9 @@ func init() {
 		}
 		if r.unknownViolations() == 0 {
 			consistencyHammer(r, "[C04]")
+		}
+		if r.unknownViolations() == 0 {
+			overlappingLogins(r, "C04")
 		}
 		if r.unknownViolations() == 0 {
 			systemRotation(r, "[C04]") // a long-lived filter, the Secret rotated between the redirect and the callback
@@ -374,4 +382,65 @@ func rejectedThenOmitted(r *Run, store string) {
 		}
 	}
 	r.Case("rejected-then-omitted|" + store)
+}
+
+// overlappingLogins: several browsers start a login one after the other - each gets its own redirect, cookie, state, nonce
+// and verifier - and only THEN do their callbacks arrive, the oldest pending login first. Each login must complete for its
+// own browser: returned to its own URL, then answered OK under its own cookie. (Whatever the service keeps between the
+// redirect and the callback belongs to one session and must not be overwritten by a later login.)
+func overlappingLogins(r *Run, prop string) {
+	for _, store := range []string{"mem", "redis"} {
+		for _, order := range [][]int{{0, 1, 2}, {0, 2, 1}, {1, 0, 2}} {
+			if r.unknownViolations() > 0 {
+				return
+			}
+			c := genCfg(r, false, len(order)+order[0])
+			c.Store, c.Abs, c.Idle, c.Disc = store, 0, 0, nil
+			s := newHSim(r, c)
+			c = s.w.cfg
+			gen := func() [4]string {
+				return [4]string{s.uniq("sid"), s.uniq("nonce"), s.uniq("state"), s.uniq("VERIFIER-marker")}
+			}
+			type pend struct {
+				iss  *issue
+				path string
+			}
+			var ps []pend
+			for b := 0; b < 3; b++ {
+				path := fmt.Sprintf("/app/browser-%d?x=%d", b, b)
+				q := hReq{Scheme: "https", Host: "app.example.com", Path: path, Gen: gen(), KeysOK: true, IDP: idpAnswer{Kind: "transport"}}
+				s.do(q)
+				if iss := s.issued[q.Gen[0]]; iss != nil {
+					ps = append(ps, pend{iss, path})
+				}
+			}
+			cb := mustURL(c.CallbackURI)
+			for _, k := range order {
+				if k >= len(ps) || s.stop {
+					continue
+				}
+				p := ps[k]
+				a := idpAnswer{Kind: "body", TokenType: "Bearer", ExpiresIn: i64(3600), Access: s.uniq("ACCESS-marker"),
+					ID: mintToken(tokSpec{Mode: "good", Exp: s.w.rig.clock.Now().Unix() + 3600, Aud: c.ClientID, Nonce: p.iss.Nonce, Sub: "user", Extra: s.uniq("j")})}
+				o := s.do(hReq{Scheme: cb.Scheme, Host: cb.Host, Path: cb.EscapedPath() + "?code=" + s.uniq("code") + "&state=" + p.iss.State,
+					Cookie: c.cookieName() + "=" + p.iss.Sid, Gen: gen(), KeysOK: true, IDP: a})
+				loc, _ := hdrValue(o.Resp.GetDeniedResponse().GetHeaders(), "location")
+				if want := "https://app.example.com" + p.path; loc != want && !s.stop {
+					s.violate(prop, "a login that was still pending when another browser started its own login could not be completed: its callback did not return the browser to the URL it had asked for",
+						map[string]any{"browser": k, "expected_location": want, "answer": showResp(o.Resp, o.Err), "order_of_callbacks": order, "store": store})
+				}
+				if s.stop {
+					break
+				}
+				o2 := s.do(hReq{Scheme: "https", Host: "app.example.com", Path: p.path, Cookie: c.cookieName() + "=" + p.iss.Sid, Gen: gen(), KeysOK: true, IDP: idpAnswer{Kind: "transport"}})
+				if o2.Resp.GetStatus().GetCode() != 0 && !s.stop {
+					s.violate(prop, "after completing a login that overlapped with other logins the browser is not answered OK under its own cookie",
+						map[string]any{"browser": k, "answer": showResp(o2.Resp, o2.Err), "order_of_callbacks": order, "store": store})
+				}
+			}
+			r.Case(fmt.Sprintf("overlap|%s|%v", store, order))
+			r.Dist["overlapping-logins"]++
+			s.close()
+		}
+	}
 }
